@@ -174,9 +174,8 @@ CLAIMS = {'C01': {'note': 'Not decided (SQL): the upsert input=input+excluded.in
                  'path: vm.numberToInteger returns the decimal rendering of the integer part of the exact rational the JSON number denotes (big.Rat, no float), and ScriptV1.ToCore renders a '
                  'json.Number amount through it and an integral json.Number variable as its exact decimal; MonetaryInt Add/Sub/Neg/comparisons and Allotment.Allocate are exact. The original '
                  'float64/int() path lost precision above 2^53 and overflowed above 2^63 (finding F7, repaired: ScriptV1 decodes with json.Number).'},
- 'C38': {'note': "Not covered: the chi router and status-code mapping of every route, HydrateLog's reflection (F24 found by a sub-agent, fixed, demonstration only), the go-libs query.Builder walk "
-                 "that connects validateFilters to ResolveFilter (the ResolveFilter requires state what it guarantees), DefaultController.Import's outer loop (reads through an interface chain that "
-                 "is opaque). 'Ledger unchanged' is C07.",
+ 'C38': {'note': 'Not covered: the chi router and status-code mapping of every route, the go-libs query.Builder walk that connects validateFilters to ResolveFilter (the ResolveFilter requires state '
+                 "what it guarantees), DefaultController.Import's outer loop (reads through an interface chain that is opaque). 'Ledger unchanged' is C07.",
          'ref': 'DESIGN.md §4 C38',
          'text': 'Panic-freedom of request-decoding paths, for all inputs: v1 Script.ToCore (F6 fixed), ScriptV1.ToCore, TransactionRequest.ToCore, Postings.Validate, TxToScriptData, '
                  'Bulker.processElement, LogType / SavedMetadata / DeletedMetadata UnmarshalJSON (F9, F10 fixed) and importLog (F11 fixed: nil ids, unchecked type assertions on imported logs, which '
@@ -185,8 +184,10 @@ CLAIMS = {'C01': {'note': 'Not decided (SQL): the upsert input=input+excluded.in
                  'type assertion or index on validated filters), accounts.ValidateAddress / assets.IsValid. Filter operators (round 7): common.ConvertOperatorToSQL panics on anything but the six '
                  'comparison operators, so it `requires` one; the logs / schemas / accounts / volumes / transactions / ledgers ResolveFilter handlers are verified to establish it from the operator '
                  'lists of the entity schemas (queries.Type*.Operators, under contract), stated over the key validateFilters looks up (the name before the first [). Two defects found and fixed this '
-                 'way (F22: $in / $exists reaching the panic; F23: metadata[balance[x]] resolved as a balance filter). Date filters: TypeDate.ValidateValue accepts exactly strings that parse, and '
-                 'NormalizeDateFilterValue then returns no (unwrapped, 500) error.'}}
+                 'way (F22: $in / $exists reaching the panic; F23: metadata[balance[x]] resolved as a balance filter). Reflection-based decoders (round 7): HydrateLog and UnmarshalBulkElementPayload '
+                 'are verified with json.Unmarshal into an interface value and reflect.ValueOf(x).Elem().Interface() modelled (nil interface / non-pointer = obligation): no panic for any type string '
+                 'and any data (F24: a JSON null payload, fixed), and an accepted bulk element has one of the four actions, spelled exactly, with the payload type processElement asserts. Date '
+                 'filters: TypeDate.ValidateValue accepts exactly strings that parse, and NormalizeDateFilterValue then returns no (unwrapped, 500) error.'}}
 NA = {'C04': 'Effective volumes are computed by the PL/pgSQL triggers set_effective_volumes / update_effective_volumes; no Go function computes them, so no contract on the Go code can state or decide the '
         'property.',
  'C05': 'Point-in-time / window reads are SQL text (first_value ... over, date predicates); a contract can say which string was built, not what Postgres returns for it.',
